@@ -350,6 +350,39 @@ def run_case(ctx, case):
             pairs_equal(ctx, 'default_folds', s3, r7, want7, case, what='default folds', default_fold=dfold)
 
 
+def check_dataset_list(ctx, case):
+    """crossnobis of several datasets in one call, one precision per DATASET handed over as a list or as one stacked
+    (n_dataset x P x P) array (what prec_from_residuals returns for a list): RDM k uses precision k"""
+    rng = ctx.rng
+    if case['method'] != 'crossnobis' or case['prec_kind'] == 'per_fold':
+        return
+    n_ds = int(rng.integers(2, 4))
+    metas = []
+    for _ in range(n_ds):
+        meas = gen.values(rng, case['meas'].shape, 'normal')
+        metas.append((meas, gen.spd(rng, case['n_ch'], 100.0)))
+    od = lambda: {'cond': gen.wrap([case['clabs'][c] for c in case['cond']], case['container']),  # noqa: E731
+                  'fold': gen.wrap([case['flabs'][f] for f in case['fold']], case['container'])}
+    dss = [Dataset(np.array(m), obs_descriptors=od(), descriptors={'subj': f's{k}'}) for k, (m, _) in enumerate(metas)]
+    form = gen.pick(rng, ['list', 'stack'])
+    noise = [pm.copy() for _, pm in metas] if form == 'list' else np.array([pm for _, pm in metas])
+    sig = sig_of(case, dataset_list=form, prec='per_dataset')
+    wit = lambda **k: witness(case, datasets=[m for m, _ in metas], precisions=[pm for _, pm in metas], form=form, **k)  # noqa
+    ok, rd = ctx.guarded('cv_vs_reference', sig, calc_rdm, dss, method='crossnobis', descriptor='cond', cv_descriptor='fold',
+                         noise=noise, remove_mean=as_flag(case), data=wit)
+    if not ok:
+        return
+    ctx.case('cv_vs_reference', sig)
+    if rd.n_rdm != n_ds:
+        ctx.fail('cv_vs_reference', dict(sig, what='n_rdm'), f'{rd.n_rdm} RDMs for {n_ds} datasets', wit())
+        return
+    for k, (m, pm) in enumerate(metas):
+        want = reference(dict(case, pscale=1.0), meas=m, prec=pm)
+        if not pairs_equal(ctx, 'cv_vs_reference', sig, rd[k], want, dict(case, pscale=1.0),
+                           what=f'dataset {k} of {n_ds} (precisions as {form})'):
+            return
+
+
 def run(ctx):
     n = ctx.n(150, 2400)
     forced = [('crossnobis', 'none'), ('crossnobis', 'one'), ('crossnobis', 'per_fold'),
@@ -366,3 +399,5 @@ def run(ctx):
         else:
             case = make_case(ctx.rng)
         run_case(ctx, case)
+        if it % 4 == 0:
+            check_dataset_list(ctx, case)
